@@ -66,7 +66,7 @@ PROPS["C06"] = {
     "level_text": 'Differential exploration: an independent FRI prover (written from the protocol description) must be accepted on thousands of valid configurations, polynomials and query sets; folding identities checked directly on fri_formula / compute_next_layer.',
     "level": "exploration",
     "technique": "runtime differential monitor: an independent coefficient-space FRI prover (NTT, Merkle/table model, sponge model) must be accepted by the real fri_commit/fri_verify; fri_formula/compute_next_layer compared with the polynomial folding identity",
-    "rule": "cases = folding identities (coset size 2..16, random polynomial of degree<64, every domain 2^k..2^8, random/0/1 challenge) and honest FRI instances (2..=15 layers, steps 1..=4, last-layer log bound 0..=8, log blow-up 0..=4, friendly count around each layer height, zero/constant/max-degree/random polynomial, polynomials divisible by x^(2^sum of steps) and the single maximal-degree monomial, friendly counts up to 2^64-1, 1..=48 queries with same-coset and whole-coset patterns); every instance's config is first required to pass the real Config::validate; leg fri-wired: the same inside the full binary for the hash variants without shipped proofs; non-trivial = at least 2 layers",
+    "rule": "cases = folding identities (coset size 2..16, random polynomial of degree<64, every domain 2^k..2^8, random/0/1 challenge) and honest FRI instances (2..=15 layers, steps 1..=4, last-layer log bound 0..=8, log blow-up 0..=4, friendly count around each layer height, zero/constant/max-degree/random polynomial, polynomials divisible by x^(2^sum of steps) and the single maximal-degree monomial, friendly counts up to 2^64-1, 1..=48 queries with same-coset and whole-coset patterns); every instance's config is first required to pass the real Config::validate; leg fri-wired: the same inside the full binary for the hash variants without shipped proofs; non-trivial = at least 2 layers; configuration sweep (no instance built): 2..=15 layers x step 1..=4 x last-layer log bound 0..=15 x log blow-up 0/1/4/16 (domain <= 2^64) must pass the real Config::validate with the right degree bound",
     "legs": [comp("fri", "fri"), full("fri-wired", "fri", q=WIRED, t=WIRED, args=["--n", "40"])],
     "required_counters": ["honest_accepted", "formula.coset_size_16", "layers.15"],
     "assumptions": TRUSTED[:1],
@@ -146,7 +146,7 @@ PROPS["C18"] = {
     "level_text": 'Structural fault enumeration with a panic/abort monitor in crash-isolated workers, bucketed by panic site; supplementary valgrind / ASan legs in the thorough tier.',
     "level": "fault_enumeration",
     "technique": "runtime crash monitor: structural malformations of accepted proofs run through the real StarkProof::verify and the three standalone validation entry points under a panic hook + catch_unwind, in crash-isolated worker processes with an address-space limit and CPU watchdog; panics are bucketed by (file, source line text, message class)",
-    "rule": "for each honest proof (quick: one per shipped build; thorough: all 26): every vector truncated to 0/1/len-1, extended, rotated; same-typed vectors swapped; every config / public-input number (and a sample of all other numbers) set to each of {0,1,2^16,2^32,2^40,2^63,2^64-1,2^64,2^128,2^250,p-2,p-1, original + 2^32 / 2^64 / 2^128 / 7*2^248}; 16 typed group edits (hostile value with dependent fields re-declared consistently; a table declared with zero columns and its values emptied; output / program spans of 2^32..2^64-1 cells, alone and paired so that only their sum overflows the machine word; a surplus trailing FRI step; inner-layer table configs dropped / a layer declared without one, the last-layer bound re-declared to match); random pairs and triples of these; a case is non-trivial when the edited proof is well-typed and differs from the original",
+    "rule": "for each honest proof (quick: one per shipped build; thorough: all 26): every vector truncated to 0/1/len-1, extended, rotated; same-typed vectors swapped; every config / public-input number (and a sample of all other numbers) set to each of {0,1,2^16,2^32,2^40,2^63,2^64-1,2^64,2^128,2^250,p-2,p-1, original + 2^32 / 2^64 / 2^128 / 7*2^248}; 16 typed group edits (hostile value with dependent fields re-declared consistently; a table declared with zero columns and its values emptied; output / program spans of 2^32..2^64-1 cells, alone and paired so that only their sum overflows the machine word; a surplus trailing FRI step; inner-layer table configs dropped / a layer declared without one, the last-layer bound re-declared to match); random pairs and triples of these; a case is non-trivial when the edited proof is well-typed and differs from the original; group page_header: one or two continuous page headers appended (8 sizes from 0 to p-1 x products 1, 0, random, p-1); group one_column: the composition table re-declared with one column, its cells replaced by the row hashes (the decommitment still opens)",
     "legs": [full("malformed", "malformed", t=FULL_SHIPPED, sharded=True, timeout={"quick": 1500, "thorough": 14000}),
              tool_leg("memcheck", "valgrind", "full", "malformed", FULL_ONE, shards=16, of=40),
              tool_leg("asan", "asan", "full", "malformed", FULL_ONE, shards=16, of=16)],
@@ -169,7 +169,7 @@ PROPS["C11"] = {
     "level_text": "Differential exploration against the statement's integer predicate (three-valued) over boundary values of every field, truncations, 9 consistent re-declaration groups, cross products and random pairs, from honest and synthesised seeds.",
     "level": "exploration",
     "technique": "runtime differential monitor: real StarkConfig::validate vs the property's predicate evaluated over arbitrary-precision integers (three-valued: accept / reject / don't-care), on boundary-value, truncation, consistent-re-declaration and pairwise edits of honest and synthesised configurations",
-    "rule": "seed configs = honest ones (quick: 4 by seed; thorough: all of the build) + 30 / 500 synthesised valid ones; edits: every numeric field <- {0,1,2,4,5,15..21,47..51,128,129,2^16,2^32,2^40,2^63,2^64-1,2^64,2^128,2^250,p-2,p-1,+-1, original + 2^32 / 2^64 / 3*2^64 / 2^128 / 2^192 / 7*2^248}, every vector truncated to 0/1/len-1 and extended, 16 groups of consistent re-declarations (incl. a surplus trailing FRI step x in {1,2,p-1,p-2,p-4} with the last-layer bound re-declared to match a whole-vector sum; the last 1..3 inner-layer table configs dropped, or one more layer declared without a table config, with the last-layer bound re-declared so that a sum over the PAIRED entries still matches) x their value lists (also judged at their own security level), random pairs; security levels exact, +-1, 0, p-1; every case is non-trivial; distinct = distinct (seed config, edit, level)",
+    "rule": "seed configs = honest ones (quick: 4 by seed; thorough: all of the build) + 30 / 500 synthesised valid ones; edits: every numeric field <- {0,1,2,4,5,15..21,47..51,128,129,2^16,2^32,2^40,2^63,2^64-1,2^64,2^128,2^250,p-2,p-1,+-1, original + 2^32 / 2^64 / 3*2^64 / 2^128 / 2^192 / 7*2^248}, every vector truncated to 0/1/len-1 and extended, 16 groups of consistent re-declarations (incl. a surplus trailing FRI step x in {1,2,p-1,p-2,p-4} with the last-layer bound re-declared to match a whole-vector sum; the last 1..3 inner-layer table configs dropped, or one more layer declared without a table config, with the last-layer bound re-declared so that a sum over the PAIRED entries still matches) x their value lists (also judged at their own security level), random pairs; security levels exact, +-1, 0, p-1; every case is non-trivial; distinct = distinct (seed config, edit, level); exponent aliases: every field also at orig + 1*ord(2) and orig + 7*ord(2) (2^x is the same field element; ord(2) computed from the factorisation of p-1)",
     "legs": [full("config", "config", q=FULL_ONE, t=FULL_SHIPPED)],
     "required_counters": ["expected_Accept.accepted", "expected_Reject.rejected", "group.blowup_mod_p", "group.fri_input_only"],
     "assumptions": TRUSTED[:1] + ["constraints the implementation enforces beyond the statement (friendly count of FRI layers, surplus vector elements, 1..=128 column range) are a don't-care region"],
@@ -179,7 +179,7 @@ PROPS["C01"] = {
     "level_text": "Attack-family exploration: complete forged proofs for AIR-violating traces, one cheating mechanism each (11 strategies incl. the three total breaks found on the original tree), are run through the real verifier; 'held' means every implemented attack was rejected, and the trace monitor shows at which protocol stage. Universal soundness is out of reach of runtime monitoring; this is the strongest executable evidence for the named mechanisms.",
     "level": "exploration",
     "technique": "runtime adversarial monitor: a cheating-prover toolkit builds complete forged proofs (constant, AIR-violating trace; honest Merkle openings; real FRI proving of the resulting DEEP function; ground PoW) that cheat in exactly one mechanism each; acceptance by the real StarkProof::verify is the refuting observation; the transcript trace monitor records how far each run got; a sensitivity monitor checks that the AIR's boundary constraints depend on every statement field the Cairo AIR binds",
-    "rule": "forgeries = (template statement/config of an honest proof of the build, strategy, repetition); strategies S1 bad trace/honest rest, S2 OODS length decoupling (also with a falsified output), S3 FRI domain larger than the evaluation domain, S11 degree bound raised to the domain size behind a surplus trailing FRI step of p - blow-up, S5 blow-up exponent p-2, S6 zero queries, S8 wrong openings with honest FRI (control), S9 last-layer length, S10 PoW not ground; a forgery is non-trivial when the harness confirmed that the committed constant trace violates the AIR (constraint combination at the OODS point != committed composition); quick: 2 smallest templates per build, thorough: all templates x 3 repetitions; statement binding (leg stmtbind): per layout, every segment bound, the range-check bounds, the padding cell and sampled main-page cells bumped by one under 2 / 6 random environments - the real eval_composition_polynomial must change for initial/final pc and ap, the first address of every builtin of the layout (dynamic: all switched on), the range-check bounds, the padding cell and every sampled public-memory cell",
+    "rule": "forgeries = (template statement/config of an honest proof of the build, strategy, repetition); strategies S1 bad trace/honest rest, S2 OODS length decoupling (also with a falsified output), S3 FRI domain larger than the evaluation domain, S11 degree bound raised to the domain size behind a surplus trailing FRI step of p - blow-up, S5 blow-up exponent p-2, S6 zero queries, S8 wrong openings with honest FRI (control), S9 last-layer length, S10 PoW not ground; a forgery is non-trivial when the harness confirmed that the committed constant trace violates the AIR (constraint combination at the OODS point != committed composition); quick: 2 smallest templates per build, thorough: all templates x 3 repetitions; statement binding (leg stmtbind): per layout, every segment bound, the range-check bounds, the padding cell and sampled main-page cells bumped by one under 2 / 6 random environments - the real eval_composition_polynomial must change for initial/final pc and ap, the first address of every builtin of the layout (dynamic: all switched on), the range-check bounds, the padding cell and every sampled public-memory cell; leg stmtbind also probes the converse: a field the composition evaluation depends on but get_hash does not absorb (the `prod` of a continuous page header) must make validate_public_input or verify_public_input refuse the input, in every layout",
     "legs": [full("forge", "forge", t=FULL_SHIPPED, serial=True, timeout={"quick": 1800, "thorough": 14000}),
              full("dynprofile", "dynprofile", q=[("blake2s_248_lsb", "stone6")], t=[("blake2s_248_lsb", "stone6")], args=["--profile", "/verif/profiles/dynamic_accept.json"]),
              full("stmtbind", "stmtbind", q=FULL_SHIPPED, t=FULL_SHIPPED)],
@@ -202,8 +202,8 @@ PROPS["C17"] = {
 PROPS["C13"] = {
     "level_text": 'Metamorphic exploration: per seed input, the digests of its whole edit neighbourhood are collected in one set; any collision between different inputs refutes; recorded proofs pin the formula.',
     "level": "exploration",
-    "technique": "runtime metamorphic monitor on the real PublicInput::get_hash: digests of every single-field change, main-page insertion/deletion/duplication/transposition, segment and page-header edits collected into one collision set per seed input; digest model cross-check; recorded Stone proofs: the digest reproduces the prover's first challenges (transcript hook)",
-    "rule": "seeds = honest public inputs of the build (plus the shipped dynamic-layout one in every build) + 24 (quick) / 200 (thorough) random ones (0..=600 cells, 0..=12 segments, 0..=4 page headers, random dynamic parameters for the dynamic layout); variants = every scalar leaf +1 (+2 thorough), friendly-layer count (stone6), main-page insertion / duplication / deletion / adjacent transposition / address-value exchange at every position (<= 40 sampled positions per seed in quick, <= 200 in thorough; on pages above 120 cells thorough draws ~240 of the page's leaves), the friendly-layer count at 0, 1, p-1, 2^8..2^250 and original + 2^8..2^250 (stone6; each also against the digest model), compensating changes, segment / header insertion / deletion / transposition, padding and range-check exchanges, the same object edited in place and hashed again (6 edits per seed, compared with a fresh equal object and the digest model); any two different inputs with equal digests violate; a variant is non-trivial when the changed field is in the statement",
+    "technique": "runtime metamorphic monitor on the real PublicInput::get_hash (all-layouts build and a single-layout build): digests of every single-field change, main-page insertion/deletion/duplication/transposition, segment and page-header edits collected into one collision set per seed input; digest model cross-check; recorded Stone proofs: the digest reproduces the prover's first challenges (transcript hook)",
+    "rule": "seeds = honest public inputs of the build (plus the shipped dynamic-layout one in every build) + 24 (quick) / 200 (thorough) random ones (0..=600 cells, 0..=12 segments, 0..=4 page headers, random dynamic parameters for the dynamic layout); variants = every scalar leaf +1 (+2 thorough), friendly-layer count (stone6), main-page insertion / duplication / deletion / adjacent transposition / address-value exchange at every position (<= 40 sampled positions per seed in quick, <= 200 in thorough; on pages above 120 cells thorough draws ~240 of the page's leaves), the friendly-layer count at 0, 1, p-1, 2^8..2^250 and original + 2^8..2^250 (stone6; each also against the digest model), compensating changes, segment / header insertion / deletion / transposition, padding and range-check exchanges, the same object edited in place and hashed again (6 edits per seed, compared with a fresh equal object and the digest model); any two different inputs with equal digests violate; a variant is non-trivial when the changed field is in the statement; leg pihash-single-layout: swiftness_air built with the recursive layout only (no `dynamic` feature, no std): None vs Some(random) vs Some(zeros) dynamic parameters, every dynamic parameter + 1, every scalar, one segment bound, one cell, every page-header field except prod must change the digest",
     "legs": [full("pihash", "pihash", q=FULL_SHIPPED, t=FULL_SHIPPED, timeout={"quick": 1200, "thorough": 5400}), full("recorded", "recorded", t=FULL_SHIPPED),
              {"name": "pihash-single-layout", "kind": "nostd", "cmd": "pistatic", "builds": {"quick": FULL_STONES, "thorough": FULL_STONES}}],
     "required_counters": ["static.none_vs_some", "changed.main_page[*].address", "changed.segments[*].begin_addr", "equal_copies_checked", "recorded_transcripts_equal"],
@@ -214,7 +214,7 @@ PROPS["C15"] = {
     "level_text": 'Differential exploration against naive evaluation: all 240 (n_bits, spacing) pairs; thousands of random public memories.',
     "level": "exploration",
     "technique": "runtime differential monitor: real get_diluted_product vs the naive recurrence over all 2^n_bits diluted values; real get_public_memory_product_ratio vs the naive product formula",
-    "rule": "diluted: all 240 (n_bits 1..=16, spacing 1..=15) pairs (including every layout's (16,4)) x 4 (quick) / 20 (thorough) (z, alpha) pairs including 0, 1, -1; memory: the honest public memories of the build + 200 / 2000 random ones (0..=300 cells with special values, 0..=3 page headers, column sizes from the exact length to 2^127, random padding cell, pages with repeated / adjacent equal cells); non-trivial: n_bits >= 2, resp. >= 2 cells",
+    "rule": "diluted: all 240 (n_bits 1..=16, spacing 1..=15) pairs (including every layout's (16,4)) x 4 (quick) / 20 (thorough) (z, alpha) pairs including 0, 1, -1; memory: the honest public memories of the build + 200 / 2000 random ones (0..=300 cells with special values, 0..=3 page headers, column sizes from the exact length to 2^127, random padding cell, pages with repeated / adjacent equal cells); non-trivial: n_bits >= 2, resp. >= 2 cells; every diluted evaluation runs on its own thread and a call that has not returned after 60 s (the recurrence has n_bits <= 16 rounds) is reported",
     "legs": [full("boundary", "boundary", q=FULL_ONE, t=FULL_SHIPPED)],
     "required_counters": ["diluted.layout_parameters_16_4", "memory.real_public_memories", "memory.random_public_memories", "memory.pages_with_adjacent_equal_cells"],
     "assumptions": TRUSTED[:1] + ["n_bits = 0 is outside the closed form's contract (it would not terminate) and is not claimed"],
@@ -234,7 +234,7 @@ PROPS["C14"] = {
     "level_text": 'Differential exploration against an integer predicate (validation) and an address-based hash oracle (returned hashes) over boundary values, cooperating edits and every main-page address perturbation, per layout.',
     "level": "exploration",
     "technique": "runtime differential monitor: real validate_public_input vs the statement's predicate over arbitrary-precision integers (three-valued), and real verify_public_input vs an address-based Pedersen-chain oracle, on boundary-value and address-perturbation edits of each layout's honest public input",
-    "rule": "per layout of the build: validation edits = step-count exponents around 79/80, range-check bounds around 0 / 0xffff, every other layout's code, segment count +-1, for every builtin the stop pointer at 0 / max / max+1 instances, +-1 cell, below the start, 2^64 instances, wrap-around start, one instance on a trace shorter than the row ratio, trace sizes 2^0..2^24 (2^30 thorough) with and without the step count following; hash edits = every main-page cell's address +1/-1/+0x1000/+2^32/+2^64/+3*2^64/+2^128, removal, duplication, neighbour and random swaps (<=64 cells sampled in quick), truncations, program/execution/output bounds +-1, +7, +2^40, each of the three segments moved as a whole by +-1, +7, +0x1000, +2^32, +2^64, +2^128 over an untouched page; rule for hashes: a real Ok(pair) must equal the address-based chains and those must be computable; every edit is a distinct non-trivial case",
+    "rule": "per layout of the build: validation edits = step-count exponents around 79/80, range-check bounds around 0 / 0xffff, every other layout's code, segment count +-1, for every builtin the stop pointer at 0 / max / max+1 instances, +-1 cell, below the start, 2^64 instances, wrap-around start, one instance on a trace shorter than the row ratio, trace sizes 2^0..2^24 (2^30 thorough) with and without the step count following; hash edits = every main-page cell's address +1/-1/+0x1000/+2^32/+2^64/+3*2^64/+2^128, removal, duplication, neighbour and random swaps (<=64 cells sampled in quick), truncations, program/execution/output bounds +-1, +7, +2^40, each of the three segments moved as a whole by +-1, +7, +0x1000, +2^32, +2^64, +2^128 over an untouched page; rule for hashes: a real Ok(pair) must equal the address-based chains and those must be computable; every edit is a distinct non-trivial case; log_n_steps = honest + k*ord(2) for k = 1..=9 (exponent aliases of the step count)",
     "legs": [full("pubinput", "pubinput", q=FULL_SHIPPED, t=FULL_SHIPPED)],
     "required_counters": ["validate.expected_Accept.accepted", "validate.expected_Reject.rejected", "verify.hashes_equal_address_based_oracle", "verify.oracle_fails.rejected"],
     "assumptions": TRUSTED + ["dynamic layout: the autogenerated dynamic-parameter assertions are not part of the statement (don't-care once the listed conjuncts hold)", "an address listed twice with different values is left to the AIR's memory argument: either value is accepted by the hash oracle"],
@@ -244,7 +244,7 @@ PROPS["C19"] = {
     "level_text": "Differential exploration against an independent Stone-file loader over ~200 classified edits per file, with a panic monitor around the repository's parse + convert pipeline.",
     "level": "exploration",
     "technique": "runtime differential monitor: the repository's proof parser + CLI conversion vs an independent Stone-file loader (plain string splitting, name-based matching) on the shipped files and on ~200 classified edits of each; panic hook around the pipeline",
-    "rule": "files: quick = 3 shipped files by seed + the dynamic-layout file, thorough = all 25; edits per file: proof parameters at boundary values (n_queries, proof_of_work_bits incl. 256/286, last_layer_degree_bound, log_n_cosets, n_friendly, step lists, steps of 32..63 inside a re-declared 2^60 domain), public-input scalars, every segment renamed/rebound/removed and new segments added, public-memory values (bad, empty, upper-case hex, p), addresses, pages (a cell moved to page 1, page-1/2 cells inserted / appended / interleaved: the main page handed over must be every page-0 cell in order), removal, reordering, dynamic parameters changed/removed/renamed/added, annotation lines per class removed / swapped / duplicated / altered / with bad hex / injected, list elements removed / swapped, nonce 0 / 2^64-1 / 2^64 / 128-bit; each edit is marked well-formed (pipeline output must equal the loader's), malformed or not representable (pipeline must return an error) or unknown (recorded); a panic is a violation for every mark",
+    "rule": "files: quick = 3 shipped files by seed + the dynamic-layout file, thorough = all 25; edits per file: proof parameters at boundary values (n_queries, proof_of_work_bits incl. 256/286, last_layer_degree_bound, log_n_cosets, n_friendly, step lists, steps of 32..63 inside a re-declared 2^60 domain), public-input scalars, every segment renamed/rebound/removed and new segments added, public-memory values (bad, empty, upper-case hex, p), addresses, pages (a cell moved to page 1, page-1/2 cells inserted / appended / interleaved: the main page handed over must be every page-0 cell in order), removal, reordering, dynamic parameters changed/removed/renamed/added, annotation lines per class removed / swapped / duplicated / altered / with bad hex / injected, list elements removed / swapped, nonce 0 / 2^64-1 / 2^64 / 128-bit; each edit is marked well-formed (pipeline output must equal the loader's), malformed or not representable (pipeline must return an error) or unknown (recorded); a panic is a violation for every mark; fri_step_list with a non-zero first step (1, 3, 2 and one beyond the domain)",
     "legs": [full("parser", "parser", q=FULL_ONE, t=FULL_ONE)],
     "required_counters": ["shipped_files_equal", "wellformed_equal", "malformed_rejected"],
     "assumptions": TRUSTED[:1] + ["cli/src/main.rs itself cannot be built offline (clap); its three-call pipeline parse -> transform_to is what is executed", "the loader's reading of the Stone file format (segment order, double-underscore parameter names) was validated on the 25 shipped files"],
